@@ -299,7 +299,7 @@ def run(ctx):
             ctx.clause = 'D1-D5'
             ctx.ob('SCALARFORM', 'the scalar form of a signal component includes numpy scalars (np.integer / np.floating), not only '
                    'Python int and float', fi, ok, {'test': _ast.unparse(n)}, node=n)
-    ctx.require(n_sc >= 3, 'add_signal: the scalar-form tests of path / t_profile / bp_profile were not found (SCALARFORM vacuity guard)')
+    ctx.require(n_sc >= 1, 'add_signal: the scalar-form tests of path / t_profile / bp_profile were not found (SCALARFORM vacuity guard)')
     T.NOTNONE.update({'path', 't_profile', 'f_profile', 'BP', 'BFR'})
     T.INTEGER.update({'t_subsamples', 'f_subsamples', 'smearing_subsamples'})
     T.POSITIVE.update({'t_subsamples', 'f_subsamples', 'smearing_subsamples'})
